@@ -14,7 +14,7 @@ TRUSTED_BASE = [
     "every later example of an unseeded, database-less run is drawn from ambient entropy",
 ]
 ASSUMPTIONS = ["determinism itself is a two-run hyper-property: what is decided is the NECESSARY frame condition that every entry into Hypothesis on a request-producing path is seeded from config.seed"]
-NOT_DECIDED = ["two-run equality of request sequences (hyper-property)", "the multiset claim across worker counts", "generate_one / cached_draw (unseeded fill-ins: known finding F13a)"]
+NOT_DECIDED = ["two-run equality of request sequences (hyper-property)", "the multiset claim across worker counts", "cached_draw's lru_cache keyed by strategy identity (assumed not to change WHICH value a strategy gets; the value itself is derandomized: default_settings contract, finding F13a fixed)"]
 EXPLANATION = ("Seed plumbing as postconditions: the stateful loop runs suite k with seed+k (for EVERY integer seed, including 0), the unit phases wrap the test in hypothesis.seed(config.seed).")
 LEVEL_TEXT = ("Deductive for the seed plumbing (necessary condition): stateful suites and unit tests are seeded from config.seed for every seed value; "
               "reproducibility itself is a hyper-property inside Hypothesis and is not decided. Level other.")
@@ -37,7 +37,7 @@ def _settings(it, **fields):
 
 def _default_settings(it):
     if "__default_settings" not in it.ghost:
-        it.ghost["__default_settings"] = _settings(it, max_examples=100, deadline=200, phases=PHASES_ALL, derandomize=False)
+        it.ghost["__default_settings"] = _settings(it, max_examples=100, deadline=200, phases=PHASES_ALL, derandomize=False, database="<directory database>", verbosity="normal", suppress_health_check=())
     return it.ghost["__default_settings"]
 
 
@@ -161,5 +161,22 @@ R.contract(
                                                                       "sorted(m.upper() for m in unexpected_methods if m != 'get')",
     },
     bounded_note="three sets of unexpected methods (2, 3 and 4 elements), an operation without parameters",
+    replayable=False,
+)
+
+
+# ------------------------------------------------------------------------------------------------- fill-in values (coverage / examples phases): no ambient entropy - the one value per strategy is derandomized
+EXM = "schemathesis.generation.hypothesis.examples:"
+R.extern_values["hypothesis.Verbosity.quiet"] = lambda it: "quiet"
+R.extern_values["hypothesis.HealthCheck"] = lambda it: ("all-health-checks",)
+R.contract(
+    EXM + "default_settings",
+    prop="C13",
+    args={},
+    raises=[],
+    ensures={
+        # same seed => same requests in a fresh process: the single value drawn for a fill-in must not come from ambient entropy (Hypothesis: derandomize=True and no example database)
+        "C13_fill_in_values_are_derandomized_and_use_no_database": "result.derandomize is True and result.database is None and result.max_examples == 1",
+    },
     replayable=False,
 )
